@@ -908,10 +908,10 @@ func C05(t Tier) int {
 	RunGraph(run, sys, bounds, 6)
 	// second initial state: 120 live DIDs already exist (more than one default page of any paginated listing), all sorting
 	// before d1/d2, so that a tombstone written now is the last entry of the store when genesis is exported
-	bulk := didSystem(didVariant{ID: "C05/bulk", Bulk: 120, Small: true, Ctl: []string{"XI", "RS"}})
+	bulk := didSystem(didVariant{ID: "C05/bulk", Bulk: 120, Tombs: 9, Small: true, Ctl: []string{"XI", "RS"}})
 	RunGraph(run, bulk, []explore.Bounds{{Depth: 3, V: 1, Deadline: deadline(t, 45*time.Second, 4*time.Minute)}}, 4)
 	run.Assumptions = append(didAssumptions, "V>=2 places a restart and an export/import after every deactivation reachable within the depth bound",
-		"a second run starts from a genesis with 120 live DIDs and explores depth 2 + one export/import or restart")
+		"a second run starts from a genesis with 120 DIDs (every 9th a tombstone) and explores depth 3 incl. one export/import or restart")
 	return run.Finish()
 }
 
